@@ -193,22 +193,24 @@ def eeStat (s : EEState) (st : EStat) (a : EEArgs) : W Nat :=
   | .mode => eeMode a.P a.w
   | .map => eeMap a.P a.pw a.llen a.tp
 
+/-- remember the new window and the size of the weight vector that was (re)built -/
+def eeCache (s : EEState) (h : Hist) (which n : Nat) : EEState :=
+  match which with
+  | 0 => { s with hist := h, smW := n }
+  | 1 => { s with hist := h, wmW := n }
+  | _ => { s with hist := h, emW := n }
+
 /-- `simpleAverage` / `weightedAverage` / `exponentialAverage`: statistic, push into the window, average the window.
     `which` = 0, 1, 2 selects the cached weight vector. -/
 def eeWindowed (s : EEState) (which : Nat) (st : EStat) (a : EEArgs) : W (EEState × Nat) := do
   let cur ← eeStat s st a
   let h ← histAdd s.hist cur
   let history ← histGet h
-  -- the weight vector is rebuilt when its size differs from history.cols(); afterwards size = history.cols()
-  if which ≠ 0 then
-    -- log_sum_exp over the rebuilt weights (history.cols() ≥ 1 after addElement)
-    nonEmpty "EstimatesExtraction: log_sum_exp(window weights) -> maxCoeff" (vecS history.c)
+  -- the weight vector is rebuilt when its size differs from history.cols(); afterwards size = history.cols();
+  -- weighted / exponential windows normalise with log_sum_exp (history.cols() ≥ 1 after addElement)
+  let _ ← (if which ≠ 0 then nonEmpty "EstimatesExtraction: log_sum_exp(window weights) -> maxCoeff" (vecS history.c) else pure ())
   let r ← eeMean s.ls s.cs history history.c
-  let s' : EEState := match which with
-    | 0 => { s with hist := h, smW := history.c }
-    | 1 => { s with hist := h, wmW := history.c }
-    | _ => { s with hist := h, emW := history.c }
-  pure (s', r)
+  pure (eeCache s h which history.c, r)
 
 /-- `extract(particles, weights)` (`full = false`) and the five-argument overload (`full = true`);
     returns the availability flag and the size of the returned vector. -/
